@@ -51,7 +51,8 @@ def _indent(text, indent=1, multiplier=4):
 
 
 def _interp(a):
-    return ModelInterp(a, {'trim': Hook(_trim), 'indent': Hook(_indent), 'regexpp': Hook(lambda x: 'r' + repr(str(x))),
+    # trim() is the repository's own (interpreted): the printers' treatment of blanks and tabs is theirs
+    return ModelInterp(a, {'indent': Hook(_indent), 'regexpp': Hook(lambda x: 'r' + repr(str(x))),
                            'typename': Hook(lambda o: o._cls.split('.')[-1] if isinstance(o, Stub) else type(o).__name__)})
 
 
@@ -128,6 +129,9 @@ def r2_roundtrip(a, tier):
         ('Pattern plain', Stub(Q['Pattern'], pattern=r'\d+'), ('pat', r'\d+')),
         ('Pattern with slash', Stub(Q['Pattern'], pattern=r'a/b'), ('pat', r'a/b')),
         ('Pattern of one dot (/./ is the any-character atom, which does not skip whitespace)', Stub(Q['Pattern'], pattern='.'), ('pat', '.')),
+        ('Pattern beginning with a blank', Stub(Q['Pattern'], pattern=' a'), ('pat', ' a')),
+        ('Pattern ending with a blank', Stub(Q['Pattern'], pattern='a +'[:2] + ' '), ('pat', 'a  ')),
+        ('Pattern holding a literal tab', Stub(Q['Pattern'], pattern='a\tb'), ('pat', 'a\tb')),
         ('Pattern with slash and double quote', Stub(Q['Pattern'], pattern=r'a/"b'), ('pat', r'a/"b')),
         ('Call', C('expr'), ('call', 'expr')),
         ('Dot', Stub(Q['Dot']), ('dot',)),
@@ -351,6 +355,22 @@ def r3_nothing_dropped(a, tier):
         if err:
             rep.fail(gp.qualname, f'preamble:{what}', f'Grammar._pretty for a grammar with {what} {err}: pretty-printing such a model fails '
                      f'or changes its whitespace handling', gp.loc)
+    # whitespace INSIDE a regex directive is part of the regex: a pattern that begins or ends with a blank, or holds a literal tab
+    for dname, value in (('whitespace', ' '), ('whitespace', ';? '), ('whitespace', ' +'), ('comments', '#[^ ]* '), ('eol_comments', '\t#.*'), ('whitespace', 'a b')):
+        g3 = Stub('tatsu.peg.base.Grammar', directives={dname: value}, keywords=(), rules=(rule,), name='Demo')
+        try:
+            text = str(_interp(a).call_bound(Bound(g3, gp), [], {'lean': False}))
+        except Unsupported as e:
+            raise AnalysisError(f'cannot interpret Grammar._pretty: {e}') from e
+        try:
+            bv = parse_ebnf(text).directives.get(dname, '<absent>')
+        except FrontEndError as e:
+            bv = f'<unreadable: {e}>'
+        ok = bv == value
+        rep.add({'directive': dname, 'given': value, 'printed_reads_as': bv, 'ok': ok})
+        if not ok:
+            rep.fail(gp.qualname, f'directive-blanks:{dname}:{value!r}', f'directive @@{dname} :: /{value}/ (blanks and tabs are part of the pattern) is printed so that it reads back '
+                     f'as {bv!r}: the recompiled grammar skips other text than the model', gp.loc)
     return rep
 
 
